@@ -34,9 +34,8 @@ fcppt::intrusive::list<Type> &fcppt::intrusive::list<Type>::operator=(list &&_ot
 
   if (_other.empty())
   {
-    this->head_.next_ = &this->head_;
-
-    this->head_.prev_ = &this->head_;
+    // Take the head out of its ring, so the previous elements no longer refer to it.
+    this->head_.unlink();
   }
   else
   {
